@@ -324,7 +324,8 @@ func ruleEvents(c *Ctx) {
 		for _, cl := range callsTo(fn, p.Fn("lua", "(*LState).Call")) {
 			for _, cd := range g.CondsAtInstr(cl) {
 				b, ok := cd.V.(*ssa.BinOp)
-				if !ok || b.Op.String() != "==" || !cd.Sense || len(looks) != 2 {
+				// `m1 == m2` holding, spelled either way (== taken, or != not taken after an early return)
+				if !ok || len(looks) != 2 || !((b.Op.String() == "==" && cd.Sense) || (b.Op.String() == "!=" && !cd.Sense)) {
 					continue
 				}
 				if (b.X == ssa.Value(looks[0]) && b.Y == ssa.Value(looks[1])) || (b.X == ssa.Value(looks[1]) && b.Y == ssa.Value(looks[0])) {
